@@ -22,7 +22,7 @@ Theorem attach1_inv : forall c m a a2 s h t1 tr P',
   is_created_view t1 = true -> is_handle tr = false -> t1 <> tr -> In tr (h_par h) ->
   NoDup P' -> (forall p, In p P' -> is_handle p = false) ->
   (forall x, countb x P' + countb x [tr] = countb x (h_par h) + countb x [t1]) ->
-  novf m (mem (use_of m s)) ->
+  mem (use_of m t1) + mem (use_of m s) <= max_int64 ->
   holders a2 = hset (holders a) s (mkHolder (h_own h) P' (h_chain h) (h_dead h)) ->
   let '(m', e) := attach1 c m s t1 tr P' in
   match e with None => Inv c m' a2 | Some _ => Inv c m' a end.
@@ -37,7 +37,7 @@ Proof.
   assert (Hs : is_handle s = true) by (destruct s; try discriminate; reflexivity).
   assert (Hk : kind_ok (KStat stt)) by (apply kind_ok_use, (I_good c m1 a I1)).
   assert (Ov1 : mem (use_of m1 t1) + mem (kdelta (KStat stt)) <= max_int64).
-  { rewrite U1. cbn [kdelta]. rewrite Es. apply Ov. }
+  { rewrite U1. cbn [kdelta]. rewrite Es. exact Ov. }
   destruct (charge_one_count t1 (KStat stt) m1 m2 Hk (I_good c m1 a I1) Ov1 C1) as (D1 & S2 & G2 & U2).
   destruct (I_handle c m1 a I1 s h G Hs) as (sc1 & Gs1 & Pd & Pc & Pe & Pl).
   (* the scope released from is a parent of s: it exists, is open and holds at least s's stat *)
